@@ -18,6 +18,11 @@ def build(seed):
         others = sorted((la.lanelet_id for la in lls[1:]), reverse=True)
         lls[0].successor = list(others)
         lls[0].predecessor = list(others)
+    if seed % 3 == 1 and lls:
+        # a network that was cut out of a larger one WITHOUT cleaning ids (create_from_lanelet_network(cleanup_ids=False)):
+        # a lanelet still names a sign and a light that are not part of this network
+        lls[0].add_traffic_sign_to_lanelet(987654)
+        lls[-1].add_traffic_light_to_lanelet(987655)
     if seed % 2 == 0:
         # a scenario that came from a file of the older supported format version carries that version in its id
         sc.scenario_id.scenario_version = "2018b"
@@ -43,6 +48,9 @@ def write(writer, method, path):
     with contextlib.redirect_stdout(io.StringIO()):
         if method == "scenario":
             writer.write_scenario_to_file(path, OverwriteExistingFile.ALWAYS)
+        elif method == "full-checked":
+            # the optional validity check looks at the document, it does not change what is written
+            writer.write_to_file(path, OverwriteExistingFile.ALWAYS, check_validity=True)
         else:
             writer.write_to_file(path, OverwriteExistingFile.ALWAYS)
 
